@@ -276,6 +276,27 @@ def run(ctx):
             {'data_', 'data_copy_'} <= set(r.rsplit('::', 1)[-1] for r in svi.subtree_refs(i))]
     ctx.check(len(cmpd) == 1, R9, 'session_interface::save:unchanged-test-compares-data-with-copy', 'the early exit of save() does not compare data_ with data_copy_', svi.where)
 
+    # exposed cookies follow the session: update_exposed compares the new state with the old one in both directions; a loop over
+    # one of the two maps that looks its own key up in the very map it iterates can never find a difference
+    ue = P.fn('cppcms::session_interface::update_exposed')
+    nl = 0
+    MAPS = ('session_interface::data_', 'session_interface::data_copy_')
+    for L in q.loops(ue):
+        Ln = ue.N(L)
+        part = Ln.get('range', -1) if Ln['k'] == 'CXXForRangeStmt' else Ln.get('init', -1)
+        if part is None or part < 0:
+            continue
+        over = [m_ for m_ in MAPS if any(model.strip_targs(r).endswith(m_) for r in ue.subtree_refs(part))]
+        if len(over) != 1:
+            continue
+        finds = [i for i in ue.calls(Ln['body']) if q.short_of(ue.callee(i)) in ('find', 'count') and any((q.obj_field(ue, i) or '').endswith(m_) for m_ in MAPS)]
+        for k_, i in enumerate(finds):
+            nl += 1
+            other = [m_ for m_ in MAPS if (q.obj_field(ue, i) or '').endswith(m_)][0]
+            ctx.check(other != over[0], R9, 'update_exposed:loop-over-%s:lookup#%d-in-the-other-map' % (over[0].rsplit('::', 1)[-1], k_),
+                      'a key taken from %s is looked up in %s itself: the comparison with the other state is dead code' % (over[0], over[0]), ue.loc(i))
+    ctx.check(nl >= 2, R9, 'update_exposed:both-directions-compared', 'update_exposed does not compare old and new exposed keys in both directions', ue.where)
+
     # ---------------- R7 in-memory storage index agreement
     msv = P.fn(MS + '::save')
     to = q.param_by_index(msv, 1)
@@ -372,7 +393,7 @@ def run(ctx):
     ctx.floor(R6, 4)
     ctx.floor(R7, 10)
     ctx.floor(R8, 35)
-    ctx.floor(R9, 2)
+    ctx.floor(R9, 4)
 
 
 def lin_sym(f):
